@@ -272,6 +272,23 @@ OpVerdict(c, op, a, params, raised, rk, rv, w) ==
   ELSE "unknown_operator"
 
 (***************************************************************************)
+(* Programs: expression trees over the operator table (registered          *)
+(* functions, C11).  A node is a record with field n:                        *)
+(*   [n |-> "arg", i |-> k]                      the k-th argument           *)
+(*   [n |-> "num", v |-> coefficient]            a plain number (scalar)     *)
+(*   [n |-> op, c |-> <<children>>, p |-> params] an operator of Apply       *)
+(* Sem(program)(args) is its value in the reference semantics.               *)
+(***************************************************************************)
+RECURSIVE EvalTree(_, _, _)
+EvalTree(c, tree, args) ==
+  IF tree.n = "arg" THEN args[tree.i]
+  ELSE IF tree.n = "num" THEN MVScalar(c.d, tree.v)
+  ELSE LET kids == [i \in DOMAIN tree.c |-> EvalTree(c, tree.c[i], args)]
+           r == Apply(c, tree.n, kids, tree.p)
+           k == ResultScale(c, tree.n)
+       IN  r    \* trees are built only from operators with ResultScale 1 (see harness/programs.py)
+
+(***************************************************************************)
 (* Lemmas of the reference layer, checked on basis blades (complete by     *)
 (* (bi)linearity) by MC_MultivectorRef.                                     *)
 (***************************************************************************)
